@@ -156,9 +156,11 @@ package dnssec
 //@   assert at call middleware/resolver/dnssec.typesSet#2: lastret("middleware/resolver/dnssec.typesSet#1") && arg0 == nsec.TypeBitMap && len(arg1) == 1 && arg1[0] == dns.TypeSOA
 //@   assert at call middleware/resolver/dnssec.typesSet#3: lastret("middleware/resolver/dnssec.nsecProperAncestor#2") && arg0 == nsec.TypeBitMap && len(arg1) == 1 && arg1[0] == dns.TypeDNAME
 //@   assert at call middleware/resolver/dnssec.closestEncloserFromNSEC#1: lastret("middleware/resolver/dnssec.nsecCovers#1") && arg0 == qname && arg1 == covering && !lastret("middleware/resolver/dnssec.nsecProperAncestor#1") && calls("middleware/resolver/dnssec.nsecProperAncestor") == 1 + len(nsecSet)
-//@   assert at call middleware/resolver/dnssec.nsecCovers#2: arg2 == wildcard
+//@   # "a name that exists (... as an empty non-terminal ...) is never denied": the wildcard at the closest encloser is
+//@   # taken as absent only on a record that DENIES it - covers it and does not end below it
+//@   assert at call middleware/resolver/dnssec.nsecDenies#1: arg1 == wildcard
 //@   assert at return#6: lastret("middleware/resolver/dnssec.nsecCovers#1") && result == nil && lastret("middleware/resolver/dnssec.closestEncloserFromNSEC") == "."
-//@   assert at return#7: lastret("middleware/resolver/dnssec.nsecCovers#1") && lastret("middleware/resolver/dnssec.nsecCovers#2") && result == nil
+//@   assert at return#7: lastret("middleware/resolver/dnssec.nsecCovers#1") && lastret("middleware/resolver/dnssec.nsecDenies") && result == nil
 //@   assert at return#1: result != nil
 //@   assert at return#2: result != nil
 //@   assert at return#3: result != nil && lastret("middleware/resolver/dnssec.nsecProperAncestor#1")
@@ -529,11 +531,20 @@ package dnssec
 //@   assert at call internal/dnsname.AppendPresentation#1: arg1 == lastret("(middleware/resolver/dnssec.aggressiveCanonicalName).suffix").wire
 //@   assert at call middleware/resolver/dnssec.nextCloserDeniedWithWork#1: calls("(middleware/resolver/dnssec.aggressiveCanonicalName).suffix") == calls("middleware/resolver/dnssec.nextCloserDeniedWithWork") + 1 && lastret("internal/dnsname.AppendPresentation", 1)
 //@
+//@ func nsecDenies
+//@   abstract
+//@   nosafety all pre
+//@   assert at call middleware/resolver/dnssec.nsecCovers#1: arg0 == nsec.Hdr.Name && arg1 == nsec.NextDomain && arg2 == name
+//@   assert at call middleware/resolver/dnssec.nsecProperAncestor#1: arg0 == name && arg1 == nsec.NextDomain
+//@   assert at return: result == (lastret("middleware/resolver/dnssec.nsecCovers") && !lastret("middleware/resolver/dnssec.nsecProperAncestor"))
+//@
 //@ func nextCloserDeniedWithWork
 //@   abstract
 //@   nosafety all pre
-//@   assert at return#1: result0 && result1 && result2 == nil && lastret("middleware/resolver/dnssec.nsecCovers")
-//@   assert at call middleware/resolver/dnssec.nsecCovers#1: arg2 == nextCloser
+//@   assert at return#1: result0 && result1 && result2 == nil && lastret("middleware/resolver/dnssec.nsecDenies")
+//@   # the next closer name is taken as absent only on a record that DENIES it (covers it and does not end below it: an
+//@   # interval ending below the name shows it exists as an empty non-terminal)
+//@   assert at call middleware/resolver/dnssec.nsecDenies#1: arg1 == nextCloser
 //@   assert at call middleware/resolver/dnssec.prepareNSEC3Set#1: arg0 == nsec3Set && arg1 == signer
 //@   assert at return#2: !result0 && !result1
 //@   assert at return#3: !result0 && !result1 && result2 != nil
